@@ -55,7 +55,7 @@ pub fn load_known_findings(property: &str) -> Vec<KnownFinding> {
     if let Ok(text) = std::fs::read_to_string(&path) {
         for line in text.lines() {
             let line = line.trim();
-            if line.is_empty() || line.starts_with('#') {
+            if line.is_empty() || line.starts_with('#') || line.starts_with("fixed:") {
                 continue;
             }
             let Ok(v) = serde_json::from_str::<Value>(line) else {
